@@ -3,6 +3,18 @@ HARNESS = "./cmd/verif-c13"
 DRIVER = "drv_c13"
 
 
+def gen(c):
+    """regenerate lean/SH/Gen/C13.lean (MaxTCPFrameBody as the compiler sees it) from /repo's working tree"""
+    b = c.go_build(HARNESS)
+    if b:
+        rc, out = c.go_run(b, ["-mode=gen"])
+        if rc == 0 and "namespace SH.Gen.C13" in out:
+            c.gen("C13", out)
+        else:
+            c.broken.append("verif-c13 -mode=gen failed: " + out[-500:])
+    return b
+
+
 def run(c):
     c.rule = ("cases: (60%) a random batch (0-16 metrics, every optional-field combination, boundary string/collection sizes, "
               "arbitrary float bit patterns, int64 at every width) encoded by the repo's TL writer, tinylib/msgp, the repo's pb code "
@@ -10,18 +22,22 @@ def run(c):
               "unknown keys; protobuf unpacked/split/padded varints/unknown fields+groups; TL with unknown mask bits) and concatenated "
               "batches; (20%) 6 damaged encodings (flip/insert/delete/truncate/length markers); (20%) noise with each format's first "
               "bytes, length-header bombs (2^16..2^32-1 elements at every collection site of every format) and ~35 packets aimed at each "
-              "rarely taken error branch. Every packet goes through the real parser.parse in a child process (RLIMIT_AS 3 GiB, 60 s watchdog) "
+              "rarely taken error branch; (5%) a TCP connection to the real receiver over loopback: 2-7 frames with body sizes 0, 1, small, "
+              "MaxTCPFrameBody-3..MaxTCPFrameBody (valid batches padded to the exact size), MaxTCPFrameBody+1.., a truncated tail, written in one piece / "
+              "split at header and body boundaries / in random pieces. After every batch 3 packets without metrics (empty maps, no metrics key, "
+              "empty TL/JSON/pb) go through the same batch object, and every packet is also decoded by a fresh parser (stale-state oracle). Every packet goes through the real parser.parse in a child process (RLIMIT_AS 3 GiB, 60 s watchdog) "
               "into one reused batch per case. non-trivial = batch with >=1 metric having tags and an optional field decoded in all formats / "
               "a damaged packet rejected inside a decoder / bombs; distinct by op-sequence hash")
     c.assumptions += [
         "JSON lexing (easyjson jlexer + generated TL JSON readers) is not modelled: detection of '{' is; JSON equality with the other formats is decided by the direct oracle on the real code only",
         "floats are bit patterns; float32->float64 widening (msgpack float32) is modelled as the hardware does it (signalling NaN quieted) and checked by the correspondence on this machine",
         "allocation sizes are not observable exactly: the model's `alloc` (largest element count passed to make) is tied to the code by the crash / amplification oracle, not by the diff",
+        "TCP framing: kernel socket behaviour (how many bytes one Read returns) is modelled as 'any chunking'; the 15 s no-progress deadline decides 'hang'",
         "msgp.Skip nesting beyond 400 levels and protowire groups beyond 10050 levels are not exercised by the correspondence",
     ]
-    c.prove("SH.Props.C13", extra_files=["SH/Model/Wire.lean", "SH/Lemmas/Wire.lean"])
+    binary = gen(c)
+    c.prove("SH.Props.C13", extra_files=["SH/Model/Wire.lean", "SH/Lemmas/Wire.lean", "SH/Gen/C13.lean"])
     drv = c.driver(DRIVER)
-    binary = c.go_build(HARNESS)
     if binary and drv:
         # thorough: 6 chunks with derived seeds (the streams are tens of MB each; keep them out of memory one at a time)
         chunks = [(c.seed, 1000)] if c.tier != "thorough" else [(c.seed + 7919 * k, 2500) for k in range(6)]
